@@ -330,7 +330,25 @@ impl Target {
             libc::kill(self.pid, libc::SIGKILL);
         }
         if let Some(mut c) = self.child.take() {
-            let _ = c.wait();
+            // If a (broken) writer left threads of the target ptrace-attached to this thread, the dead
+            // threads stay zombies until their tracer reaps them, and the leader cannot be reaped
+            // before that: reap whatever we are the tracer of, never block.
+            let t0 = std::time::Instant::now();
+            loop {
+                for tid in self.manifest.tids.iter().chain(std::iter::once(&self.pid)) {
+                    unsafe {
+                        libc::waitpid(*tid, std::ptr::null_mut(), libc::__WALL | libc::WNOHANG);
+                    }
+                }
+                match c.try_wait() {
+                    Ok(Some(_)) | Err(_) => break,
+                    Ok(None) => {}
+                }
+                if t0.elapsed().as_secs() > 10 {
+                    break;
+                }
+                std::thread::sleep(std::time::Duration::from_millis(1));
+            }
         }
     }
 }
